@@ -17,7 +17,8 @@
  *   blk <n> <h0> ... <h15>      FNV-1a-64 of the bytes each combo wrote; combo index = amp*4 + bits8*2 + unsigned
  *   one <x> <v0> ... <v15>      values as signed numbers
  * plus, from the direct oracle (relations between the real outputs only, never compared with the driver):
- *   oracle_fail <kind> x=<x> amp=<a> <detail>
+ *   oracle_fail <kind> x=<x> amp=<a> <detail>       kinds: unsigned*, highbyte*, amp* (doubling), saturate16/8
+ *                                                   (= clamp of the floor-shifted value), sign, monotone, amp_monotone
  *   oracle <checked> <fails> clipped16=<n> clipped8=<n>
  *
  * The downmix functions are static: this translation unit includes mixer.c
@@ -98,6 +99,39 @@ static void run_chunk(int n, int verbose)
 				ofail("highbyte_signed", x, amp, s8, hi_byte_floor(s16));
 			if (u8 != (u16 >> 8))
 				ofail("highbyte_unsigned", x, amp, u8, u16 >> 8);
+			/* saturating: the shifted accumulator clamped to the sample range (computed in 64 bits
+			 * with floor division, independent of the code's >>), and sign-preserving */
+			{
+				int sh16 = DOWNMIX_SHIFT - amp, sh8 = DOWNMIX_SHIFT + 8 - amp;
+				long long X = x, d16v = 1LL << sh16, d8v = 1LL << sh8;
+				long long f16 = X >= 0 ? X / d16v : -((-X + d16v - 1) / d16v);
+				long long f8 = X >= 0 ? X / d8v : -((-X + d8v - 1) / d8v);
+				long long w16 = f16 > LIM16_HI ? LIM16_HI : f16 < LIM16_LO ? LIM16_LO : f16;
+				long long w8 = f8 > LIM8_HI ? LIM8_HI : f8 < LIM8_LO ? LIM8_LO : f8;
+				if (s16 != w16)
+					ofail("saturate16", x, amp, s16, (long)w16);
+				if (s8 != w8)
+					ofail("saturate8", x, amp, s8, (long)w8);
+				if ((s16 < 0) != (x < 0) || (s8 < 0) != (x < 0) || (x == 0 && (s16 != 0 || s8 != 0)))
+					ofail("sign", x, amp, s16, s8);
+			}
+			/* monotone: a larger accumulator never gives a smaller sample, in any of the four encodings
+			 * (unsigned samples compared as unsigned words); neighbours of the block are compared */
+			if (i + 1 < n) {
+				int32 y = acc[i + 1];
+				long t16 = o16[amp][0][i + 1], tu16 = (uint16)o16[amp][1][i + 1];
+				long t8 = o8[amp][0][i + 1], tu8 = (uint8)o8[amp][1][i + 1];
+				int le = x <= y, ge = x >= y;
+				if ((le && (s16 > t16 || u16 > tu16 || s8 > t8 || u8 > tu8)) ||
+				    (ge && (s16 < t16 || u16 < tu16 || s8 < t8 || u8 < tu8)))
+					ofail("monotone", x, amp, (long)y, s16);
+			}
+			/* a louder amplification never moves a sample towards zero */
+			if (amp < 3) {
+				long l16 = o16[amp + 1][0][i], l8 = o8[amp + 1][0][i];
+				if ((x >= 0 && (l16 < s16 || l8 < s8)) || (x <= 0 && (l16 > s16 || l8 > s8)))
+					ofail("amp_monotone", x, amp, s16, l16);
+			}
 			/* one amplification step = exact doubling of the pre-clip value: where the louder
 			 * output is not clipped the quieter one is exactly its half (floor); where it is
 			 * clipped the quieter one is at least half of full scale */
